@@ -498,7 +498,7 @@ CHECKS = {
                     # the real InformerMap against a list/watch server: streams and event delivery (spec/TraceDynCacheReal.tla)
                     dict(name='c12-real', module='TraceDynCacheReal', shards=4 if tier == 'quick' else 14,
                          invariants=['Inv_C12_MatchesReferenceModel', 'Inv_C12_InformerIffOwned', 'Inv_C12_HandlersAttached'],
-                         driver=['c12-real', '-steps', '2' if tier == 'quick' else '3']),
+                         driver=['c12-real', '-n', '0', '-steps', '2' if tier == 'quick' else '3']),
                     dict(name='c12-stress', module='TraceDynCache', shards=4 if tier == 'quick' else 14,
                          driver=['c12-stress', '-n', '40' if tier == 'quick' else '2000', '-steps', '60', '-seed', str(seed)])]),
     'C13': dict(level='model_checking', invariants=INV['C13'], module='TraceRender', mc=package_env_mc,
@@ -511,7 +511,12 @@ CHECKS = {
                                          # two Packages of one image in a plain and in a hosted cluster's namespace (spec/TraceObs.tla)
                                          dict(name='package-env', module='TraceObs', shards=4 if tier == 'quick' else 14,
                                               invariants=['Inv_C13_UnchangedPackageKeepsTemplate', 'Inv_C16_TemplateIsRender', 'Inv_C19_NoPanic'],
-                                              driver=['package-walk', '-profile', 'env', '-mode', 'atomic', '-n', '40' if tier == 'quick' else '1500', '-steps', '80', '-seed', str(seed)])]),
+                                              driver=['package-walk', '-profile', 'env', '-mode', 'atomic', '-n', '40' if tier == 'quick' else '1500', '-steps', '80', '-seed', str(seed)]),
+                                         # a phase of more than 1 MiB goes through the default chunker (bin-packing into ObjectSlices): every object
+                                         # exactly once, in its phase, in order - judged against the reference render with the slices inlined
+                                         dict(name='package-big', module='TraceObs', shards=4 if tier == 'quick' else 14,
+                                              invariants=['Inv_C13_UnchangedPackageKeepsTemplate', 'Inv_C16_TemplateIsRender', 'Inv_C14_SliceContent', 'Inv_C19_NoPanic'],
+                                              driver=['package-walk', '-profile', 'big', '-mode', 'atomic', '-n', '8' if tier == 'quick' else '200', '-steps', '60', '-seed', str(seed)])]),
     'C16': dict(level='model_checking', invariants=INV['C16'], mc=package_mc, assumptions=ASSUME + [
         'the registry is scripted (fixture packages per image reference); loader, validators, renderer, deployer and chunker are the real code',
         'reference render for Inv_C16_TemplateIsRender = the same pipeline invoked directly on the current spec in a fault-free call'],
